@@ -6,18 +6,15 @@
 (*   latest  the clock reading `now` and, for several (level, n), the expected Latest        *)
 (*   query   the expected Total() and the expected Range(a, b) of every JUDGED candidate      *)
 (*           range (aligned to the level that retains a; see TSOracle)                      *)
-(* A final query is appended to every history.  Times are in units; the header gives the     *)
+(* Every history ends with a query.            Times are in units; the header gives the     *)
 (* level sizes in units, the number of buckets and the length of a unit in milliseconds so   *)
 (* that the driver can build the series (custom small one through init, or the package's     *)
 (* TimeSeries / MinuteHourSeries) and place model time on the real time line.               *)
 EXTENDS TSOracle, Json
 
-CONSTANTS Kind,       \* "small" | "ts" | "mh"
-          UnitMs,     \* milliseconds per unit
-          Abs,        \* TRUE: times are taken from Times; FALSE: reference time + a delta
-          Times,
-          Deltas,
-          Start,      \* first time of a relative history
+CONSTANTS Kinds,      \* shapes to generate for: subset of {"small", "ts", "mh"}
+          Times,      \* "small": the times used (absolute, interior)
+          Start,      \* "ts" / "mh": first time of a history; later ones are maxT + a delta
           ChkSet,     \* values of the chk flag of add steps ({FALSE} or BOOLEAN)
           GenDepth
 
@@ -26,7 +23,6 @@ CONSTANTS Kind,       \* "small" | "ts" | "mh"
 SizesTS == <<2, 20, 120, 1200, 7200, 43200, 172800, 1209600, 4838400, 19353600>>
 SizesMH == <<2, 120>>
 SizesSmall == <<4, 12>>
-NoTimes == {}
 
 \* time jumps (units of 500 ms): same bucket, neighbours, the edges of the 64-bucket and
 \* 60-bucket windows of the first levels, minutes, hours, days, months; forwards and backwards
@@ -35,8 +31,14 @@ DeltasTS == LET P == {0, 2, 20, 126, 128, 130, 1282, 7682, 172800, 20000000}
 DeltasMH == LET P == {0, 2, 58, 118, 120, 122, 7078, 7198, 7202, 100000}
             IN P \cup {0 - d : d \in P}
 
-VARIABLE hist
-gvars == <<ovars, hist>>
+VARIABLES hist, kind
+gvars == <<ovars, hist, kind>>
+
+SizesOf(k) == IF k = "ts" THEN SizesTS ELSE IF k = "mh" THEN SizesMH ELSE SizesSmall
+NBOf(k)    == IF k = "ts" THEN 64 ELSE IF k = "mh" THEN 60 ELSE 4
+UnitOf(k)  == IF k = "small" THEN 250 ELSE 500          \* milliseconds per unit
+Abs        == kind = "small"
+Deltas     == IF kind = "ts" THEN DeltasTS ELSE DeltasMH
 
 Val == IF Len(obs) < 20 THEN 2 ^ Len(obs) ELSE (Len(obs) % 7) + 1
 
@@ -44,19 +46,30 @@ Cands == IF Abs THEN Times
          ELSE IF ~seen THEN {Start}
          ELSE {x \in {maxT + d : d \in Deltas} : x >= 1 /\ Interior(x)}
 
-GInit == OInit /\ hist = <<[op |-> "hdr", kind |-> Kind, sizes |-> Sizes, nb |-> NB, unit_ms |-> UnitMs]>>
+GInit == \E k \in Kinds :
+            /\ kind = k
+            /\ OInitWith(SizesOf(k), NBOf(k))
+            /\ hist = <<[op |-> "hdr", kind |-> k, sizes |-> SizesOf(k), nb |-> NBOf(k), unit_ms |-> UnitOf(k),
+                        stale_from |-> 0]>>
 
 \* the history holds the inputs only; the predictions are attached when it is printed
-GNext ==
-    /\ Len(hist) <= GenDepth
-    /\ \/ \E t \in Cands, chk \in ChkSet :
-            /\ OAdd(t, Val)
-            /\ hist' = Append(hist, [op |-> "add", t |-> t, v |-> Val, chk |-> chk])
-       \/ \E now \in Cands :
-            /\ OClock(now)
-            /\ hist' = Append(hist, [op |-> "latest", now |-> now])
-       \/ /\ seen /\ hist[Len(hist)].op # "query"
-          /\ hist' = Append(hist, [op |-> "query"]) /\ UNCHANGED ovars
+Step ==
+    \/ \E t \in Cands, chk \in ChkSet :
+          /\ OAdd(t, Val)
+          /\ hist' = Append(hist, [op |-> "add", t |-> t, v |-> Val, chk |-> chk])
+    \/ \E now \in Cands :
+          /\ OClock(now)
+          /\ hist' = Append(hist, [op |-> "latest", now |-> now])
+    \/ /\ seen /\ hist[Len(hist)].op # "query"
+       /\ hist' = Append(hist, [op |-> "query"]) /\ UNCHANGED ovars
+
+\* every history ends with a query
+FinalQuery == hist' = Append(hist, [op |-> "query"]) /\ UNCHANGED ovars
+
+GNext == /\ kind' = kind
+         /\ IF Len(hist) < GenDepth THEN Step
+            ELSE IF Len(hist) = GenDepth THEN FinalQuery
+            ELSE FALSE
 
 GSpec == GInit /\ [][GNext]_gvars
 
@@ -75,7 +88,8 @@ LatestQs(os, m, cl) ==
 RangeQs(os, m, sn, cl) ==
     LET anchors == {m} \cup {os[i][1] : i \in {j \in 1..Len(os) : j > Len(os) - 4}}
         cands == {<<FloorTo(x, Sizes[L]) - d * Sizes[L], k * Sizes[L]>> :
-                     x \in anchors, L \in {K \in Levels : K <= 5}, d \in {0, 1}, k \in {0, 1, 2, NB}}
+                     x \in anchors, L \in {K \in Levels : K <= 4}, d \in {0, 1}, k \in {1, 2, NB}}
+                 \cup {<<FloorTo(m, Sizes[1]), 0>>}
     IN SetToSeq({[a |-> c[1], b |-> c[1] + c[2], exp |-> RangeExpOf(os, c[1], c[1] + c[2])] :
                     c \in {r \in cands : RangeJudgedAt(sn, cl, m, r[1], r[1] + r[2])}})
 
@@ -96,7 +110,25 @@ Ann(h, i, os, m, sn, cl) ==
               \o Ann(h, i + 1, os, m, sn, cl)
          ELSE <<e>> \o Ann(h, i + 1, os, m, sn, cl)
 
-\* printed once per complete history, with a final query appended
+\* Scenario class of the known finding F-ts1 (README.md), defined on the inputs alone: a clock
+\* reading taken by Latest moved the end of the finest level (e0) past the anchor of the pending
+\* slot (pt), and a later observation falls strictly after pt but at least one finest bucket
+\* before e0.  StaleFrom = the number of the first such step (0 = the history has none); it is
+\* exported in the header so that mismatches of that class are reported as one class.
+Before == 0 - 1000000000
+RECURSIVE StaleFrom(_, _, _, _)
+StaleFrom(h, i, e0, pt) ==
+    IF i > Len(h) THEN 0
+    ELSE LET x == h[i] IN
+         IF x.op = "latest" THEN StaleFrom(h, i + 1, Max2(e0, CeilTo(x.now, Sizes[1])), pt)
+         ELSE IF x.op = "add" /\ x.t > pt
+         THEN LET e1 == Max2(e0, CeilTo(x.t, Sizes[1])) IN
+              IF x.t <= e1 - Sizes[1] THEN i - 1 ELSE StaleFrom(h, i + 1, e1, e1)
+         ELSE StaleFrom(h, i + 1, e0, pt)
+
+\* printed once per complete history
 Emit == Len(hist) <= GenDepth
-        \/ PrintT(<<"BEH", ToJson(Ann(Append(hist, [op |-> "query"]), 1, <<>>, 0, FALSE, TRUE))>>)
+        \/ LET h == Ann(hist, 1, <<>>, 0, FALSE, TRUE)
+               hdr == [h[1] EXCEPT !.stale_from = StaleFrom(hist, 2, Before, Before)]
+           IN PrintT(<<"BEH", ToJson(<<hdr>> \o Tail(h))>>)
 =============================================================================
